@@ -44,6 +44,10 @@ MAJOR = {"2": "2", "3.0": "3", "3.1": "3", "4.0": "4"}
 FILLER = ["", " ", "\n", "see ", " and ", "; ", ", ", " (", ") ", ". ", "CVE-2024-1234 ", "score 7.5 ", "\t",
           "vector=", "\"", "'", " - ", "[", "] ", "-> ", "Ünïcode ", "#1 ", "100% ", "\r\n"]
 GLUE = ["", "/", ":", "x", "AV", "/AV:N", "CVSS:", "A", "z:"]
+# characters directly before / after a vector on which regular-expression classes, str.strip(),
+# str.isdigit() and friends disagree between interpreters or between ASCII and Unicode modes
+EDGE = [".", ",", ";", ")", "]", "'", "\"", "-", "_", "1", "/1", "7.5/", "\t", "\r\n", "\x0b", "\x0c", "\x1c", "\x85",
+        "\u00a0", "\u2028", "\u2003", "\uff11", "\u0663", "\u00b2", "\u00e9", "\u0130", "\u212a", "\ufeff", "\x00"]
 
 
 def assignment(rng, version, p_optional=None, p_nd=None):
@@ -262,8 +266,15 @@ def text_with_vectors(rng, pool=None):
         used.append(v)
         if rng.chance(0.15):
             parts.append(rng.choice(GLUE))
+        elif rng.chance(0.12):
+            parts.append(rng.choice(EDGE))
+        if rng.chance(0.06) and v.startswith("CVSS:3."):
+            # a non-ASCII digit in the minor version: matched by an unrestricted \d, not a valid prefix
+            v = v[:7] + rng.choice(["\uff10", "\uff11", "\u0661", "\u00b9"]) + v[8:]
         parts.append(v)
         if rng.chance(0.15):
             parts.append(rng.choice(GLUE))
+        elif rng.chance(0.12):
+            parts.append(rng.choice(EDGE))
     parts.append(rng.choice(FILLER))
     return "".join(parts)
